@@ -31,19 +31,23 @@ IsPos(v) == v \in {"def", "p1", "p2"}
 (*   squash "root" | "all"                                                 *)
 (* u = [kind, n: NF -> given|keep, tp: keep|nil|set, t: TF -> given|keep,   *)
 (*      log: keep|nil|l1|l2, rlc: keep|nil|r1, ro: keep|T|F,                *)
-(*      maxfs: keep|neg|zero|pos, squash: keep|same|other|empty]            *)
+(*      maxfs: keep|neg|zero|pos, squash: keep|same|other|empty|case]       *)
 (*   kind "export": every tuning and policy field is named (a whole struct),*)
 (*        squash "keep" stands for Squash == "" (accepted, mode kept)        *)
 (*   kind "tuning": the mutation function names a subset                    *)
 (*   kind "policy": a whole PolicyOptions; squash "empty" = Squash == ""    *)
+(*   squash "case" = the current mode spelled differently ("ROOT" for       *)
+(*        "root"): every Squash comparison of the update path must treat it *)
+(*        the same way, accepted everywhere or refused before anything is   *)
+(*        applied                                                          *)
 (***************************************************************************)
 InitCfg == [n |-> [f \in NF |-> "def"], t |-> [f \in TF |-> "def"], log |-> "nil", rlc |-> "def",
             ro |-> "F", maxfs |-> "zero", squash |-> "root"]
 
 \* absnfs.go UpdateExportOptions / options.go UpdatePolicyOptions: the Squash comparison
 Rejects(cfg, u) ==
-  CASE u.kind = "export" -> u.squash = "other"
-    [] u.kind = "policy" -> u.squash \in {"other", "empty"}     \* "" # "root"
+  CASE u.kind = "export" -> u.squash \in {"other", "case"}            \* exact string comparison: "ROOT" # "root"
+    [] u.kind = "policy" -> u.squash \in {"other", "empty", "case"}   \* "" # "root"
     [] OTHER -> FALSE
 
 Pick(keepv, g, v) == IF g = "keep" THEN keepv ELSE v
